@@ -110,6 +110,10 @@ Proof.
   destruct (tb_encode c) eqn:E; [congruence|]. rewrite <- E, tb_roundtrip by exact H. reflexivity.
 Qed.
 
+Theorem cursor_string_as_argument c :
+  tb_encode c <> [] /\ (wire_ok c -> arg_of_wire (Some (tb_encode c)) = Some (CCursor c)).
+Proof. split; [apply tb_encode_nonempty | apply arg_of_wire_encode]. Qed.
+
 (** ** Walking by the cursor strings is walking by the cursors *)
 
 Lemma last_error_In {A} (l : list A) x : last_error l = Some x -> In x l.
